@@ -42,7 +42,8 @@ BANNERS = [
 ]
 GOOD = {"min", "new-3.0.10", "new-10.0.0"}
 
-HANDSHAKE = Profile(write_exc=("SerialException",), read_exc=("SerialException",),
+HANDSHAKE = Profile(write_exc=("SerialException", "SerialException_EBUSY"),
+                    read_exc=("SerialException", "SerialException_EBUSY"),
                     latency=(0, 1, 26), content=("err",), silent=True, read_window=2,
                     close_exc=True)
 
